@@ -60,6 +60,8 @@ type Contract struct {
 	Missing   bool
 	Split     int
 	SplitDeep bool
+	Generalize []string // `generalize ghostJ ..`: callers may assume the ensures clauses mentioning these ghost variables for every value
+	SplitLoops map[int]bool // `split loop N ...`: deep path splitting inside the bodies of these loops only
 	Pure      bool
 	Logged    bool // modular calls append "@Key" to the ghost write log of the caller
 	ResultPure string // assumption: function values this function returns are side-effect free, deterministic functions of their arguments
@@ -213,9 +215,22 @@ func parseContractFile(fset *token.FileSet, f *ast.File, pkg *packages.Package) 
 				if rest == "deep" {
 					cur.Split = 512
 					cur.SplitDeep = true
+				} else if strings.HasPrefix(rest, "loop ") {
+					cur.Split = 512
+					cur.SplitDeep = true
+					cur.SplitLoops = map[int]bool{}
+					for _, f := range strings.Fields(rest[5:]) {
+						n, err := strconv.Atoi(f)
+						if err != nil {
+							return nil, nil, fmt.Errorf("%s: split loop: bad ordinal %q", where, f)
+						}
+						cur.SplitLoops[n] = true
+					}
 				} else if n, err := strconv.Atoi(rest); err == nil {
 					cur.Split = n
 				}
+			case "generalize":
+				cur.Generalize = append(cur.Generalize, strings.Fields(rest)...)
 			case "cases":
 				w, r := splitWord(rest)
 				cur.CaseVar = w
